@@ -199,22 +199,7 @@ func checkC13(c *Ctx) {
 			}
 			return ""
 		}))
-	// status capture: the wrapper's WriteHeader records the status it forwards
-	wh := p.Fn("internal/loadbalancer", "responseWriter", "WriteHeader")
-	if wh == nil {
-		c.Missing("status-captured", "loadbalancer.(*responseWriter).WriteHeader")
-	} else {
-		ok := false
-		instrsOf(wh, func(in ssa.Instruction) {
-			if k, st := storeKey(in); k == "loadbalancer.responseWriter.statusCode" {
-				if _, isP := st.Val.(*ssa.Parameter); isP {
-					ok = true
-				}
-			}
-		})
-		c.Check(ok, "status-captured", "loadbalancer.(*responseWriter).WriteHeader", p.Pos(wh.Pos()),
-			"the status passed to WriteHeader is what is stored in statusCode", "WriteHeader does not store its argument in statusCode (accounting and passive health checks see the wrong status)")
-	}
+	c.statusCaptured()
 	c.gaugeWriters()
 	lockDiscipline(c, func(k string) bool {
 		return strings.HasPrefix(k, "metrics.Metrics.") || strings.HasPrefix(k, "metrics.BackendMetrics.") || k == "loadbalancer.Backend.ActiveConnections"
@@ -280,4 +265,42 @@ func (c *Ctx) gaugeWriters() {
 		c.Fail("gauge-writers", field, "-", bad[0], bad...)
 	}
 	c.Floor("gauge-writers", nWrites, 2, "gauge updates")
+}
+
+// statusCaptured: the status used for accounting and passive health checks is the last one the
+// backend wrote: every path of responseWriter.WriteHeader stores its argument (C13, C04).
+func (c *Ctx) statusCaptured() {
+	p := c.P
+	w := c.wrapperNamed("loadbalancer.responseWriter")
+	if w == nil || w.Methods["WriteHeader"] == nil {
+		c.Missing("status-captured", "loadbalancer.(*responseWriter).WriteHeader")
+		return
+	}
+	c.traceRule("status-captured", "loadbalancer.(*responseWriter).WriteHeader", w.Methods["WriteHeader"], c.rwSpec(w),
+		"every call stores the status it was given (an informational 1xx is overwritten by the final status)",
+		func(t *Trace) string {
+			for _, it := range t.Items {
+				if strings.HasPrefix(it.Label, "store statusCode := param:") {
+					return ""
+				}
+			}
+			return "a WriteHeader call does not record its status: after an informational 1xx the final status (e.g. a 5xx) is invisible to accounting, passive health checks and the circuit breaker"
+		})
+	// and nothing else rewrites it except the abort marker in proxyRequest's deferred block
+	for _, fn := range p.Funcs {
+		if !p.InScope(fn) {
+			continue
+		}
+		instrsOf(fn, func(in ssa.Instruction) {
+			if k, st := storeKey(in); k == "loadbalancer.responseWriter.statusCode" && fn != w.Methods["WriteHeader"] {
+				if c.P.Freshness().IsFresh(st.Addr.(*ssa.FieldAddr).X, 0) && fn.Parent() == nil {
+					return // the initial value in the literal
+				}
+				if kk, ok := constInt(st.Val); ok && kk >= 500 {
+					return // marking an aborted exchange as failed
+				}
+				c.Fail("status-captured", p.FuncKey(fn)+"/overwrites-status", p.InstrPos(st), "the captured status is overwritten outside WriteHeader with "+p.Desc(st.Val, nil))
+			}
+		})
+	}
 }
